@@ -1172,10 +1172,12 @@ def c18(ck):
         b[k // 8] = 1 << (7 - k % 8)
         outs.append(bytes(b))
     outs += [bytes([255] * 19), bytes(19)] + [rng.bytes(19) for _ in range(20 if quick else 500)]
+    odd_clocks = [0, 1, EPOCH - 1, 2 ** 64 - 1, 2 ** 63, 2 ** 32, EPOCH + 1024 * STEP + 7]
     for n, grp in enumerate(chunked(outs, 40)):
         s = Script()
         for o in grp:
-            s.add("env", "rand=" + hx(o), "time=%d" % (EPOCH + rng.below(1024) * STEP))
+            # also clocks a defensive implementation might distrust: nothing but the injected clock may be asked
+            s.add("env", "rand=" + hx(o), "time=%d" % (rng.choice(odd_clocks) if rng.chance(1, 3) else EPOCH + rng.below(1024) * STEP))
             s.add("create", 1, 0)
             s.add("store", 1, 1)
             s.add("free", 1)
